@@ -61,6 +61,7 @@ class Rt:
         self.hkind = {}      # k -> kind
         self.inst_of_task = {}
         self.rl_entered = set()
+        self.outbox = {}     # key -> event object built by some handler or task, to be dispatched later by whoever
         self.syncstack = {}
         self.act = {}        # (b, e) -> [executor procs]
         self.pending_inst = {}  # (b, e, k) -> [instance ids scheduled, body not yet started]
@@ -536,6 +537,14 @@ class TBus(EventBus):
 
 
 _orig_update = BaseEvent.event_result_update
+class TBusA(TBus):
+    """an application's own bus class (nothing overridden)"""
+
+
+class TBusB(TBus):
+    """another one"""
+
+
 EXECUTOR = contextvars.ContextVar('verif_harness_executor', default=None)
 INST = contextvars.ContextVar('verif_harness_instance', default=None)
 
@@ -662,6 +671,31 @@ async def run_prog(i, bi, event, prog, sync):
                 slots[ins[3]] = None
                 if strict:
                     raise
+        elif op == 'make':
+            # the handler only builds an event object (an outbox, a prepared follow-up); whoever dispatches it does so later
+            RT.outbox[ins[2]] = mk_event(ins[1])
+        elif op == 'dispatch_made':
+            ev = RT.outbox.pop(ins[2], None)
+            if ev is not None and ev is not event:
+                try:
+                    RT.buses[ins[1]].dispatch(ev)
+                except Exception:
+                    if strict:
+                        raise
+        elif op == 'dispatch_lower':
+            # dispatch a new event of the type ranked just below the type of the event being handled (none below the lowest):
+            # one handler (typically a wildcard one) serving every level of a chain, e.g. a retry that re-dispatches on failure
+            order = sorted(RT.sc['types'])
+            ty = type(event).__name__
+            if ty in order and order.index(ty) + 1 < len(order):
+                ev = mk_event(order[order.index(ty) + 1])
+                made[ins[2]] = ev
+                try:
+                    slots[ins[2]] = RT.buses[ins[1]].dispatch(ev)
+                except Exception:
+                    slots[ins[2]] = None
+                    if strict:
+                        raise
         elif op == 'redispatch':
             ev = slots.get(ins[1]) or made.get(ins[1])
             if ev is not None:
@@ -994,6 +1028,15 @@ async def ext_task(x, prog, slots):
                     RT.buses[op[2]].dispatch(ev)
                 except Exception:
                     pass
+        elif o == 'make':
+            RT.outbox[op[2]] = mk_event(op[1])
+        elif o == 'dispatch_made':
+            ev = RT.outbox.pop(op[2], None)
+            if ev is not None:
+                try:
+                    slots[op[3]] = RT.buses[op[1]].dispatch(ev)
+                except Exception:
+                    slots[op[3]] = None
         elif o == 'sleep':
             await asyncio.sleep(op[1])
         elif o == 'await':
@@ -1085,7 +1128,7 @@ async def run_sc(sc):
     RT.types = mk_types(sc)
     for i, b in enumerate(sc['buses']):
         # (a pool of buses created under one requested name: the library renames all but the first)
-        bus = TBus('W' if sc.get('same_names') else f'B{i}', parallel_handlers=b.get('parallel', False), max_history_size=b.get('maxh', 50),
+        bus = (TBus, TBusA, TBusB)[b.get('cls', 0)]('W' if sc.get('same_names') else f'B{i}', parallel_handlers=b.get('parallel', False), max_history_size=b.get('maxh', 50),
                    wal_path=(os.path.join(WALDIR, f'wal_{i}.jsonl') if b.get('wal') else None))
         RT.busidx[bus] = i
         RT.buses.append(bus)
